@@ -276,3 +276,16 @@ func (x *Exec) poolType(tn string) types.Type {
 	}
 	return nil
 }
+
+func init() {
+	regExtern("github.com/hslam/scheduler.Schedule", "global scheduler: like `go f()` (spawn rule for the closure)", func(x *Exec, fc *funcCtx, n *node, callee *ssa.Function, args []Value, rty types.Type, pos token.Pos) Value {
+		if len(args) == 1 {
+			x.spawnClosure(n, args[0], pos, "")
+		}
+		return TupleV{}
+	})
+	regExtern("github.com/hslam/scheduler.New", "returns a non-nil scheduler", func(x *Exec, fc *funcCtx, n *node, callee *ssa.Function, args []Value, rty types.Type, pos token.Pos) Value {
+		r := x.alloc(n.st, "sched")
+		return IfaceV{Tag: IntLit(998), Val: r, Ty: rty}
+	})
+}
